@@ -21,9 +21,15 @@ namespace
 {
 struct CfgReceiver : Receiver
 {
-    vpbt::Exact buf;
+    std::unique_ptr<vpbt::Exact> buf;
     gstuff_autorecv rx;
-    CfgReceiver(const Alphabet &a, size_t cap) : buf(cap), rx(ctx_of(a)) { rx.init(buf.p, (int)cap); }
+    CfgReceiver(const Alphabet &a, size_t cap) : buf(new vpbt::Exact(cap)), rx(ctx_of(a)) { rx.init(buf->p, (int)cap); }
+    void rearm(size_t cap) override
+    {
+        std::unique_ptr<vpbt::Exact> nb(new vpbt::Exact(cap));
+        rx.setbuf(nb->p, (int)cap);
+        buf = std::move(nb);
+    }
     Status feed(uint8_t c) override
     {
         switch (rx.newchar((char)c))
